@@ -107,3 +107,10 @@ specfun("RuleFires", """
 def RuleFires(fn, line):
     return False
 """, result="bool", axiom="True")
+
+# Escaped(s, lo, p): 1 when position p of s is consumed by a backslash escape that starts at or after lo
+# (a backslash that is itself not escaped stands directly before it), else 0.
+specfun("Escaped", r'''
+def Escaped(s, lo, p):
+    return 0 if p <= lo else (1 if (s[p - 1] == "\\" and Escaped(s, lo, p - 1) == 0) else 0)
+''')
